@@ -707,6 +707,21 @@ func ruleG3(r *Run) {
 		}
 	}
 	defs := localDefs(info, fd.Body)
+	// the list that is folded: the field pm.handlers, or a []PluginHandler parameter of rebuildHandler (checked at its call sites)
+	var listParam types.Object
+	for _, pv := range paramsOf(info, fd.Type) {
+		if sl, ok := pv.Type().Underlying().(*types.Slice); ok {
+			if it, ok := sl.Elem().Underlying().(*types.Interface); ok && it.Empty() {
+				listParam = pv
+			}
+		}
+	}
+	isList := func(e ast.Expr) bool {
+		if fv := fieldOf(info, e); fv != nil && fv.Name() == "handlers" {
+			return true
+		}
+		return listParam != nil && identObj(info, e) == listParam
+	}
 	startsDefault := false
 	ast.Inspect(fd.Body, func(n ast.Node) bool {
 		if as, ok := n.(*ast.AssignStmt); ok && len(as.Rhs) == 1 && as.Tok == token.DEFINE {
@@ -733,7 +748,7 @@ func ruleG3(r *Run) {
 					}
 				}
 				if lc, ok := n.(*ast.CallExpr); ok && IsBuiltin(info, lc, "len") {
-					if fv := fieldOf(info, lc.Args[0]); fv != nil && fv.Name() == "handlers" {
+					if isList(lc.Args[0]) {
 						iv := identObj(info, as.Lhs[0])
 						if cb, ok := loop.Cond.(*ast.BinaryExpr); ok && cb.Op == token.GEQ && identObj(info, cb.X) == iv {
 							if z, ok := intConst(info, cb.Y); ok && z == 0 {
@@ -755,7 +770,7 @@ func ruleG3(r *Run) {
 			if call, ok := as.Rhs[0].(*ast.CallExpr); ok && len(call.Args) == 2 {
 				if fv := fieldOf(info, call.Fun); fv != nil && fv.Name() == "getNextHandler" {
 					if ie, ok := ast.Unparen(call.Args[0]).(*ast.IndexExpr); ok {
-						if hv := fieldOf(info, ie.X); hv != nil && hv.Name() == "handlers" && identObj(info, call.Args[1]) == identObj(info, as.Lhs[0]) {
+						if isList(ie.X) && identObj(info, call.Args[1]) == identObj(info, as.Lhs[0]) {
 							bodyOK = true
 						}
 					}
@@ -794,6 +809,123 @@ func ruleG3(r *Run) {
 		})
 	}
 	r.Check(appendOK && rebuilds, "Use appends to the list and rebuilds", 0, "handlers = append(handlers, new...) ; rebuildHandler()", "Use no longer appends the new handlers at the END of the list followed by a rebuild: insertion order (first added outermost) is lost or the chain is stale")
+	// the list the chain is rebuilt from is the list Use and Unuse maintain: when rebuildHandler takes the list as a
+	// parameter, every call passes pm.handlers or a local that the same function stores into pm.handlers
+	if listParam != nil {
+		okSites, nSites, badSite := true, 0, ""
+		p.EachFunc(func(pk *packages.Package, cfd *ast.FuncDecl) {
+			if pk != pkg {
+				return
+			}
+			ast.Inspect(cfd.Body, func(n ast.Node) bool {
+				c, ok := n.(*ast.CallExpr)
+				if !ok || Callee(info, c) == nil || p.Decl(Callee(info, c)) != fd || len(c.Args) == 0 {
+					return true
+				}
+				nSites++
+				arg := ast.Unparen(c.Args[len(c.Args)-1])
+				if fv := fieldOf(info, arg); fv != nil && fv.Name() == "handlers" {
+					return true
+				}
+				stored := false
+				if o := identObj(info, arg); o != nil {
+					ast.Inspect(cfd.Body, func(m ast.Node) bool {
+						if as, ok := m.(*ast.AssignStmt); ok && len(as.Lhs) == 1 && len(as.Rhs) == 1 {
+							if fv := fieldOf(info, as.Lhs[0]); fv != nil && fv.Name() == "handlers" && identObj(info, as.Rhs[0]) == o {
+								stored = true
+							}
+						}
+						return true
+					})
+				}
+				if !stored {
+					okSites, badSite = false, p.DeclName(cfd)
+				}
+				return true
+			})
+		})
+		r.Check(okSites && nSites > 0, "the chain is rebuilt from the maintained list", fd.Pos(), "every rebuildHandler(list) is given pm.handlers", "rebuildHandler is called in "+badSite+" with a list that is not (and is not stored into) pm.handlers: the active chain and the list that the next Use/Unuse starts from disagree - a removed handler comes back, or an added one disappears, with the next change")
+	}
+	// Unuse: the filtered list replaces the maintained list, and the scan visits every installed handler
+	if nfd, _ := p.DeclOf("rpc/core", "pluginManager.Unuse"); nfd != nil {
+		storesBack := false
+		ast.Inspect(nfd.Body, func(n ast.Node) bool {
+			if as, ok := n.(*ast.AssignStmt); ok && len(as.Lhs) == 1 {
+				if fv := fieldOf(info, as.Lhs[0]); fv != nil && fv.Name() == "handlers" {
+					storesBack = true
+				}
+			}
+			return true
+		})
+		r.Check(storesBack, "Unuse stores the filtered list", nfd.Pos(), "pm.handlers = filtered", "Unuse never assigns the filtered list to pm.handlers: the removed handler is gone from the chain built now, but the next Use or Unuse rebuilds from the old list and silently puts it back")
+		// the outer loop over the installed handlers has no early exit
+		var outer ast.Stmt
+		ast.Inspect(nfd.Body, func(n ast.Node) bool {
+			if outer != nil {
+				return false
+			}
+			switch x := n.(type) {
+			case *ast.RangeStmt:
+				if fv := fieldOf(info, x.X); fv != nil && fv.Name() == "handlers" {
+					outer = x
+				}
+			case *ast.ForStmt:
+				if x.Cond != nil {
+					ast.Inspect(x.Cond, func(k ast.Node) bool {
+						if fv := fieldOf(info, exprOrNil(k)); fv != nil && fv.Name() == "handlers" {
+							outer = x
+						}
+						return true
+					})
+				}
+			}
+			return true
+		})
+		if outer == nil {
+			r.Undec("Unuse scans every installed handler", nfd.Pos(), "no loop over pm.handlers found in Unuse")
+		} else {
+			nparents := parentMap(nfd.Body)
+			var outerLabel string
+			if ls, ok := nparents[outer].(*ast.LabeledStmt); ok {
+				outerLabel = ls.Label.Name
+			}
+			early := ""
+			ast.Inspect(outer, func(n ast.Node) bool {
+				switch x := n.(type) {
+				case *ast.FuncLit:
+					return false
+				case *ast.ReturnStmt:
+					early = "return"
+				case *ast.BranchStmt:
+					if x.Tok != token.BREAK && x.Tok != token.GOTO {
+						return true
+					}
+					if x.Tok == token.GOTO {
+						early = "goto"
+						return true
+					}
+					if x.Label != nil {
+						if x.Label.Name == outerLabel {
+							early = "break " + outerLabel
+						}
+						return true
+					}
+					// unlabelled break: leaves the innermost loop/switch/select around it
+					for y := nparents[x]; y != nil; y = nparents[y] {
+						switch y.(type) {
+						case *ast.ForStmt, *ast.RangeStmt, *ast.SwitchStmt, *ast.SelectStmt, *ast.TypeSwitchStmt:
+							if y == ast.Node(outer) {
+								early = "break"
+							}
+							return true
+						}
+					}
+				}
+				return true
+			})
+			r.Check(early == "", "Unuse scans every installed handler", outer.Pos(), "the loop over pm.handlers runs to its end", "the scan over the installed handlers can be left early ("+early+"): every handler installed after the first match is dropped from the chain together with the one that was to be removed")
+		}
+	}
 }
 
 // ---------------------------------------------------------------------------------------
